@@ -192,7 +192,7 @@ func thoroughExtras(c *Ctx, repo, verif string, selftest bool) map[string]interf
 		}
 	}
 	results := make([]stRes, len(todo))
-	sem2 := make(chan struct{}, 4)
+	sem2 := make(chan struct{}, 6)
 	for i, d := range todo {
 		wg.Add(1)
 		go func(i int, d string) {
@@ -257,6 +257,79 @@ func thoroughExtras(c *Ctx, repo, verif string, selftest bool) map[string]interf
 		if (r.Expect == "detected" && r.Result == "silent") || (r.Expect == "missed" && r.Result == "detected") {
 			unexpected++
 		}
+	}
+	// ---- benign corpus: behaviour-preserving refactorings (independently written, /verif/benign) must stay silent
+	bdirs, _ := filepath.Glob(filepath.Join(verif, "benign", "*", "patch.diff"))
+	sort.Strings(bdirs)
+	type bnRes struct {
+		Name   string   `json:"refactoring"`
+		Result string   `json:"result"` // silent | alarm | inapplicable | error
+		Rules  []string `json:"reported_rules,omitempty"`
+	}
+	bres := make([]bnRes, len(bdirs))
+	for i, pf := range bdirs {
+		wg.Add(1)
+		go func(i int, pf string) {
+			defer wg.Done()
+			sem2 <- struct{}{}
+			defer func() { <-sem2 }()
+			res := bnRes{Name: filepath.Base(filepath.Dir(pf))}
+			defer func() { bres[i] = res }()
+			tmp, err := os.MkdirTemp("", "gomqttcheck-benign-")
+			if err != nil {
+				res.Result = "error"
+				return
+			}
+			defer os.RemoveAll(tmp)
+			scratch := filepath.Join(tmp, "repo")
+			if err := copyTree(repo, scratch); err != nil {
+				res.Result = "error"
+				return
+			}
+			ap := exec.Command("git", "apply", "--whitespace=nowarn", pf)
+			ap.Dir = scratch
+			if _, err := ap.CombinedOutput(); err != nil {
+				res.Result = "inapplicable"
+				return
+			}
+			sum, _, err := childRun([]string{"-repo", scratch, "-verif", verif, "-out", filepath.Join(tmp, "out"), "-prop", c.Prop, "-tier", "quick", "-summary"})
+			if err != nil {
+				res.Result = "error"
+				return
+			}
+			if len(sum.Violations) == 0 {
+				res.Result = "silent"
+				return
+			}
+			res.Result = "alarm"
+			seen := map[string]bool{}
+			for _, v := range sum.Violations {
+				if !seen[v.Rule] {
+					seen[v.Rule] = true
+					res.Rules = append(res.Rules, v.Rule)
+				}
+			}
+		}(i, pf)
+	}
+	wg.Wait()
+	bSilent, bAlarm, bOther := 0, 0, 0
+	for _, r := range bres {
+		switch r.Result {
+		case "silent":
+			bSilent++
+		case "alarm":
+			bAlarm++
+		default:
+			bOther++
+		}
+	}
+	extra["benign"] = map[string]interface{}{
+		"what":                  "behaviour-preserving refactorings (independently written, /verif/benign) applied one at a time to a scratch copy of the current tree; this property's rules must not report anything",
+		"refactorings":          len(bres),
+		"silent":                bSilent,
+		"false_alarms":          bAlarm,
+		"inapplicable_or_error": bOther,
+		"results":               bres,
 	}
 	extra["selftest"] = map[string]interface{}{
 		"what":                              "seeded property-breaking changes (independently written, /verif/seeded) applied one at a time to a scratch copy of the current tree; 'detected' = this property's rules report a violation on the changed copy; changes marked expected=missed break a behavioural clause outside static reach (DESIGN.md section 11)",
